@@ -830,7 +830,7 @@ Definition block_with_step (self : evals) (st : state) (blk : option block) (ctx
       | Some b =>
           let octx := scur st in
           match r_eval_block self (with_cur st ctx) b with
-          | ROk (v, st1) => ROk (write (sheap st1) v, with_cur st1 octx)
+          | ROk (v, st1) => if printable (sheap st1) v then ROk (write (sheap st1) v, with_cur st1 octx) else RUnsup
           | RErr e s => RErr e (with_cur s octx)
           | RPanic s => RPanic s
           | RFuel => RFuel
@@ -1086,7 +1086,7 @@ Definition exec_prog_step (self : evals) (st : state) (prog : list stmt) (out : 
                 ROk (VNil, set_in st1 (scur st1) (match name with Some n => n | None => [] end) v)
             end in
           match r with
-          | ROk (v, st1) => r_exec_prog self st1 rest (out ++ write (sheap st1) v)
+          | ROk (v, st1) => if printable (sheap st1) v then r_exec_prog self st1 rest (out ++ write (sheap st1) v) else OUnsup
           | RErr e st1 =>
               OErr (match sstmt st1 with Some l => l | None => tline (stmt_tok s) end) e st1
           | RPanic site => OPanic site
